@@ -1,17 +1,83 @@
+_QUICK_FLOORS = {
+    # diagram classes (all six configs together; a quick run generates ~46 000 diagrams, ~87 % with a tie)
+    "diag.tie": 20000, "diag.repeated": 10000, "diag.equal_birth": 12000, "diag.equal_death": 12000,
+    "diag.touching": 11000, "diag.nested": 11000, "diag.zero_length": 1800, "diag.coords.decimal": 1100,
+    "diag.align.all_odd": 3500, "diag.align.mixed_parity": 600,
+    # pointwise comparisons with the definition
+    "cmp.exact.value.breakpoint": 600000, "cmp.exact.value.between": 600000, "cmp.exact.value.outside": 150000,
+    "cmp.grid.value.grid_point": 850000, "cmp.grid.value.between": 1900000,
+    "cmp.exact.value_limited": 300000, "cmp.grid.value_limited_levels.grid_point": 400000,
+    "op.construct_limited_levels.truncating": 1100,
+    "cmp.exact.plus.breakpoint": 300000, "cmp.exact.minus.breakpoint": 300000, "cmp.exact.times.breakpoint": 340000,
+    "cmp.exact.abs.breakpoint": 700000, "cmp.exact.average.breakpoint": 300000, "cmp.exact.new_abs.breakpoint": 300000,
+    "cmp.grid.plus.grid_point": 400000, "cmp.grid.minus.grid_point": 400000, "cmp.grid.abs.grid_point": 800000,
+    "cmp.grid.average.grid_point": 390000, "op.average": 3000,
+    # integrals, metric, inner product
+    "cmp.exact.integral_level": 25000, "cmp.exact.integral_p": 9000, "cmp.grid.integral_level": 18000,
+    "cmp.grid.integral_p_level": 54000, "cmp.exact.vectorize": 13000, "cmp.grid.vectorize": 24000,
+    "cmp.exact.distance": 29000, "cmp.grid.distance": 27000, "cmp.exact.triangle": 130000, "cmp.grid.triangle": 130000,
+    "cmp.exact.inner_product": 15000, "cmp.grid.inner_product": 15000, "cmp.exact.bilinear": 3000, "cmp.grid.bilinear": 3000,
+    "op.average_as_operand": 750,
+    "_distinct_nontrivial": 7500,
+}
+
 SPEC = {
     "property": "C18",
-    "rule": "TODO",
-    "assumptions": [],
+    "rule": "each case draws 1 (values configs) or 3 (algebra / metric configs) diagrams of 0-12 intervals (thorough: up to 20) in integer "
+            "units, with six generator styles that force repeated, nested, equal-birth, equal-death, touching and zero-length intervals, and "
+            "maps them to dyadic coordinates (1 exact case in 5: non-representable decimals such as 0.3+0.1j; gridded: endpoints on grid "
+            "points of a dyadic grid of 16-64 cells, all of one parity, or of mixed parity in config grid_values). Persistence_landscape and "
+            "Persistence_landscape_on_grid built from them are compared with the definition lambda_k(t) = (k+1)-th largest of "
+            "max(0,min(t-b,d-t)) (harness/c18_landscapes/landscape_def.h): every level 0..m+1 at every candidate breakpoint "
+            "{b, d, (d_i+b_j)/2}, every midpoint between consecutive breakpoints, every zero crossing and points outside the support "
+            "(exact form), at every grid point and at 1/4, 1/2, 3/4 of every cell (gridded form); the results of + - * (both orders) "
+            "+= -= *= /= abs new_abs compute_average at the same points against the pointwise operation on the definition; all overloads "
+            "of compute_integral_of_landscape, project_to_R, vectorize, compute_maximum, the limited-levels constructors; distance "
+            "(p = 1, 2, max(), infinity), compute_norm_of_landscape and compute_scalar_product against exact piecewise closed-form "
+            "integrals on the merged breakpoints, plus d(f,f)=0, symmetry, the triangle inequality on all 27 ordered triples, symmetry "
+            "and bilinearity (both arguments) of the inner product. non-trivial = case (distinct by hash of its logged history) whose "
+            "(first two) diagram(s) have >= 3 intervals and at least one pair of overlapping intervals, and that passed every comparison",
+    "assumptions": [
+        "convention followed (documented in Persistence_representations_doc.h and used by both classes): f_(b,d)(t)=max(0,min(t-b,d-t)) "
+        "without division by 2; levels are 0-based in the API (level 0 = lambda_1); grid constructor (p, min, max, N) has N+1 points of "
+        "spacing (max-min)/N",
+        "intervals satisfy b <= d, are finite, and (gridded form) lie inside [grid_min, grid_max] with endpoints on grid points",
+        "number_of_levels arguments are >= 1; compute_average gets >= 1 landscape; vectorize(k) is only called for k < size() (exact) / "
+        "k < number of grid points (grid): the off-by-one at k == size() in Persistence_landscape::vectorize and find_max is outside "
+        "the documented domain and is not exercised",
+        "gridded L^1 / L^2 distances are compared with the exact integrals only for pairs whose levels do not cross strictly between "
+        "neighbouring grid points (the header documents the inaccuracy for crossing pairs); metric laws are checked for all pairs",
+        "tolerances: 1e-9 (values) and 1e-7 (integrals, distances, inner products), relative to max(1,|expected|): the library "
+        "divides in every interpolation; dyadic inputs make the expected values exact",
+        "the oracle landscape_def.h (definition + closed-form integrals of linear pieces) is the trusted base",
+    ],
     "units": [
         {"name": "exact", "src": ["c18_exact.cpp"], "variant": "asan",
-         "configs": {"exact_values": {"quick": 2000, "thorough": 200000},
-                     "exact_algebra": {"quick": 1000, "thorough": 100000},
-                     "exact_metric": {"quick": 1000, "thorough": 100000}}, "chunk": 25},
+         "configs": {"exact_values": {"quick": 6000, "thorough": 300000},
+                     "exact_algebra": {"quick": 3000, "thorough": 150000},
+                     "exact_metric": {"quick": 3000, "thorough": 150000}}, "chunk": 25},
         {"name": "grid", "src": ["c18_grid.cpp"], "variant": "asan",
-         "configs": {"grid_values": {"quick": 2000, "thorough": 200000},
-                     "grid_algebra": {"quick": 1000, "thorough": 100000},
-                     "grid_metric": {"quick": 1000, "thorough": 100000}}, "chunk": 25},
+         "configs": {"grid_values": {"quick": 6000, "thorough": 300000},
+                     "grid_algebra": {"quick": 3000, "thorough": 150000},
+                     "grid_metric": {"quick": 3000, "thorough": 150000}}, "chunk": 25},
     ],
-    "floors": {"quick": {}, "thorough": {}},
-    "manifest": {"text": "TODO", "note": "TODO", "technique": "runtime monitoring"},
+    "floors": {"quick": _QUICK_FLOORS,
+               "thorough": {k: v * 45 for k, v in _QUICK_FLOORS.items()}},
+    "exhaustive": {"quick": False, "thorough": False},
+    "manifest": {
+        "text": "Runtime monitor: tens of thousands of random tie-rich diagrams (repeated, nested, equal births/deaths, touching, "
+                "zero-length intervals; dyadic and decimal coordinates) are turned into Persistence_landscape and "
+                "Persistence_landscape_on_grid objects under ASan+UBSan, and every observable of the property is compared with an "
+                "independent restatement of the definition: all levels at every breakpoint, between breakpoints, at and between "
+                "grid points; sums, differences, scalar multiples, absolute values and averages pointwise; every integral overload, "
+                "L^1/L^2/sup distances, norms and inner products against exact closed-form integrals on merged breakpoints; "
+                "symmetry, d(f,f)=0, triangle inequality and bilinearity directly. Held-on-what-was-observed, not a proof; "
+                "adequate because the functions are piecewise linear with breakpoints in a finite set that is swept completely "
+                "for each case, and ten seeded single-site mutations of the anchored code were all detected by the quick tier.",
+        "note": "trusted: landscape_def.h oracle (k-th largest tent value, closed-form integrals of linear pieces), libstdc++; "
+                "documented conventions followed (no division by 2, 0-based levels); gridded form only for grid-aligned diagrams "
+                "inside the grid; gridded L^p distance compared exactly only where levels do not cross between grid points",
+        "technique": "runtime monitoring: randomized inputs + definition oracle on all breakpoints / grid points, algebraic and metric "
+                     "law checks, under AddressSanitizer/UBSan",
+    },
 }
